@@ -65,3 +65,18 @@ pub assume_specification<'a, K: std::cmp::Eq + std::hash::Hash + std::borrow::Bo
             Some(x) => contains_borrowed_key(old(m)@, k) && maps_borrowed_key_to_value(old(m)@, k, *x) && map_updated_at_borrowed(old(m)@, k, *final(x), final(m)@),
             None => !contains_borrowed_key(old(m)@, k) && final(m)@ == old(m)@,
         };
+
+/// `a != b` for `&String` and `&str`
+#[verifier::external_body]
+pub fn string_ne_str(a: &String, b: &str) -> (r: bool)
+    ensures r == (str_bytes(a@) != b.spec_bytes())
+{ unimplemented!() }
+
+/// `v.sort_unstable()` for `Vec<(&String, &String)>`: a permutation, sorted by the tuple Ord = (String Ord, String Ord) lexicographically,
+/// String Ord being byte-wise lexicographic order
+#[verifier::external_body]
+pub fn sort_unstable_pairs(v: &mut Vec<(&String, &String)>)
+    ensures
+        pv(final(v)@).to_multiset() == pv(old(v)@).to_multiset(),
+        vstd::relations::sorted_by(pv(final(v)@), |a: Pair, b: Pair| pair_le(a, b)),
+{ unimplemented!() }
